@@ -223,6 +223,11 @@ func (v *VServer) Quiesce() (alive bool, state string) {
 				return true, "stuck:queues"
 			}
 		}
+		if spins%256 == 255 {
+			if why := v.loopSelfBlocked(); why != "" {
+				return true, "stuck:" + why
+			}
+		}
 		spins++
 		if spins < 200 {
 			runtime.Gosched()
@@ -230,6 +235,36 @@ func (v *VServer) Quiesce() (alive bool, state string) {
 			time.Sleep(20 * time.Microsecond)
 		}
 	}
+}
+
+// loopSelfBlocked: the loop goroutine is blocked in a send to one of its OWN input queues (NotifyTransTimeout ->
+// trToCh, NotifySessReport -> srCh). Only the loop receives from these channels, so it can never be released:
+// a verdict from the goroutine's state and stack, needing no deadline.
+func (v *VServer) loopSelfBlocked() string {
+	if v.gid == "" {
+		return ""
+	}
+	n := runtime.Stack(v.buf, true)
+	for n >= len(v.buf) {
+		v.buf = make([]byte, 2*len(v.buf))
+		n = runtime.Stack(v.buf, true)
+	}
+	for _, g := range bytes.Split(v.buf[:n], []byte("\n\n")) {
+		id, st := header(g)
+		if id != v.gid {
+			continue
+		}
+		if st != "chan send" {
+			return ""
+		}
+		for _, fn := range []string{"pfcp.(*PfcpServer).NotifyTransTimeout(", "pfcp.(*PfcpServer).NotifySessReport("} {
+			if bytes.Contains(g, []byte(fn)) && bytes.Contains(g, []byte("pfcp.(*PfcpServer).main(")) {
+				return "loop blocked in " + strings.TrimSuffix(fn, "(") + ", a send to a queue only the loop itself drains"
+			}
+		}
+		return ""
+	}
+	return ""
 }
 
 // pendingDatagrams: octets waiting in the server socket's receive queue (0 = nothing queued).
@@ -252,6 +287,7 @@ func (v *VServer) pendingDatagrams() int {
 // empty and the receiver goroutine is parked in its read.
 func (v *VServer) QuiesceUDP() (alive bool, state string) {
 	dl := time.Now().Add(60 * time.Second)
+	uspins := 0
 	for {
 		if v.pendingDatagrams() == 0 {
 			d := gstate.Dump()
@@ -280,6 +316,12 @@ func (v *VServer) QuiesceUDP() (alive bool, state string) {
 		}
 		if time.Now().After(dl) {
 			return true, "stuck:udp"
+		}
+		uspins++
+		if uspins%4096 == 4095 {
+			if why := v.loopSelfBlocked(); why != "" {
+				return true, "stuck:" + why
+			}
 		}
 		runtime.Gosched()
 	}
